@@ -228,7 +228,7 @@ class C19(Prop):
         import os
         import random
         srng = random.Random('C19:grid:%s:%s' % (os.environ.get('VERIF_SEED', '0') or '0', tier))
-        amounts = self._amounts(srng, 100000 if big else 10000)
+        amounts = self._amounts(srng, 400000 if big else 10000)
 
         # (a) amounts received: every textual form, method rotated; every method for the boundary amounts
         for n, k in enumerate(amounts):
@@ -269,9 +269,8 @@ class C19(Prop):
         # (c) hashes: conversion functions and chained calls
         hashes = ['00' * 32, 'ff' * 32, '00' * 31 + '01', '01' + '00' * 31, '000000000019d6689c085ae165831e93'
                   '4ff763ae46a2a6c172b3f1b60a8ce26f', ''.join('%02x' % b for b in range(32)), '0f' * 32, 'f0' * 32]
-        hashes += [srng.randbytes(32).hex() for _ in range(300 if big else 30)]
-        odd = ['', '00', 'abcdef', 'AbCdEf', 'FF' * 32, 'aB' * 32, '0', 'abc', 'zz', '0g', ' 00', '00 ', '0x00', '00' * 20,
-               '00' * 33]
+        hashes += [srng.randbytes(32).hex() for _ in range(2000 if big else 30)]
+        odd = ['', '00', 'abcdef', 'AbCdEf', 'FF' * 32, 'aB' * 32, '0', 'abc', 'zz', '0g', '0x00', '00' * 20, '00' * 33]
         for h in hashes + odd:
             if mine():
                 yield mk('c19.lx', h, tag='lx')
@@ -285,11 +284,11 @@ class C19(Prop):
                     yield mk('c19.chain', kind, h, tag='chain')
 
         # (d) transport of transactions, headers, blocks
-        for _ in range(600 if big else 60):
+        for _ in range(3000 if big else 60):
             t = self._rand_tx(srng)
             if mine():
                 yield mk('c19.tx', txfmt.show_tx(t), tag='tx')
-        for _ in range(200 if big else 20):
+        for _ in range(800 if big else 20):
             h = self._rand_header(srng)
             b = dict(hdr=self._rand_header(srng), vtx=[self._rand_tx(srng) for _ in range(srng.choice([1, 1, 2, 3]))])
             if mine():
@@ -306,7 +305,7 @@ class C19(Prop):
         code_specs = ['int=%d' % c for c in sorted(codes)]
         code_specs += ['dec=' + t for c in sorted(set(SPEC_CODES) | set(tree_codes)) for t in
                        ('%d.0' % c, '%d.00' % c, '%de-1' % (c * 10), '%d.5' % c, '%dE0' % c, '%d.0000000001' % c)]
-        code_specs += ['dec=-0.5e1', 'dec=1e2', 'dec=0.0', 'dec=-0.0', 'dec=1.0', 'absent', 'true', 'false', 'null', 'str']
+        code_specs += ['empty', 'dec=-0.5e1', 'dec=1e2', 'dec=0.0', 'dec=-0.0', 'dec=1.0', 'absent', 'true', 'false', 'null', 'str']
         methods = ['call', 'raw', 'getblockhash', 'getblock', 'getblockheader', 'getrawtransaction', 'gettransaction',
                    'getbalance', 'getbestblockhash', 'sendrawtransaction', 'gettxout', 'listunspent', 'getblockcount',
                    'sendtoaddress', 'submitblock', 'getrawmempool']
@@ -342,7 +341,7 @@ class C19(Prop):
 
         # (f) id sequences
         toks = ['ok', 'err', 'bad', 'none', 'miss', 'batch']
-        for n in range(400 if big else 40):
+        for n in range(2000 if big else 40):
             hist = [srng.choice(toks) for _ in range(srng.choice([1, 2, 50, 50, 50, 120]))]
             if mine():
                 yield mk('c19.ids', ','.join(hist), tag='ids')
@@ -491,7 +490,7 @@ class C19(Prop):
             members.append('"error": %s' % OTHERS[int(e[6:])])
         elif e.startswith('dict='):
             c = e[5:]
-            inner = ['"message": "scripted"']
+            inner = [] if c == 'empty' else ['"message": "scripted"']
             if c.startswith('int=') or c.startswith('dec='):
                 inner.append('"code": %s' % c[4:])
             elif c in ('true', 'false', 'null'):
@@ -592,6 +591,32 @@ class C19(Prop):
         if op == 'c19.ids':
             return guarded(lambda: self._ids(a[0].split(',')))
         raise ValueError(op)
+
+    def agree(self, c, io, mo):
+        if io == mo:
+            return True
+        op = c['op']
+        if op in ('c19.lx', 'c19.unhex', 'c19.chain'):
+            # a string that is not hex is not a hash: only "refused" is compared, not the exception class
+            return io.startswith('err:') and mo.startswith('err:')
+        if op == 'c19.amountIn':
+            # the property speaks about texts that denote whole satoshis below the context precision;
+            # elsewhere (sub-satoshi digits, astronomically large values) only "an integer next to the exact
+            # value, or refused" is required, so that a different rounding of sub-satoshi digits is no alarm
+            try:
+                exact = Fraction(Decimal(c['args'][1])) * COIN
+            except Exception:  # noqa: BLE001
+                return False
+            in_domain = exact.denominator == 1 and abs(exact) < 10 ** 28
+            if in_domain:
+                return False
+            if io.startswith('err:') or mo.startswith('err:'):
+                return io.startswith('err:') and mo.startswith('err:') or abs(exact) >= 10 ** 28
+            try:
+                return abs(int(io) - exact) < 1
+            except ValueError:
+                return False
+        return False
 
     def nontrivial(self, c, io):
         a = c['args']
